@@ -303,8 +303,36 @@ def extract_pool(repo, parents):
         raise ExtractError("_assign_requests_to_connections: `reserved` is used in some but not all of the places the model knows")
     if not any(present) and "reserved" in src:
         raise ExtractError("_assign_requests_to_connections: unknown use of `reserved`")
+    # the house-keeping loop: an if / elif chain whose branches the model knows, in this order
+    loops = [n for n in fn.body if isinstance(n, ast.For) and ast.unparse(n.iter) == "list(self._connections)"]
+    if len(loops) != 1 or len(loops[0].body) != 1 or not isinstance(loops[0].body[0], ast.If):
+        raise ExtractError("_assign_requests_to_connections: house-keeping loop `for connection in list(self._connections): if ...` not found")
+    chain, node = [], loops[0].body[0]
+    while True:
+        chain.append((ast.unparse(node.test), [ast.unparse(b) for b in node.body]))
+        if len(node.orelse) == 1 and isinstance(node.orelse[0], ast.If):
+            node = node.orelse[0]
+        elif not node.orelse:
+            break
+        else:
+            raise ExtractError("house-keeping loop: unexpected else branch")
+    drop, close = ["self._connections.remove(connection)"], ["self._connections.remove(connection)", "closing_connections.append(connection)"]
+    if len(chain) < 3 or chain[0] != ("connection.is_closed()", drop) or chain[1] != ("connection.has_expired()", close) \
+            or not chain[2][0].startswith("connection.is_idle() and ") or chain[2][1] != close:
+        raise ExtractError(f"house-keeping loop: the closed / expired / surplus-idle branches are not the ones the model knows: {chain[:3]}")
+    reclaim = False
+    if len(chain) == 4:
+        if chain[3] != ("connection not in reserved and (not connection.is_idle())", close):
+            raise ExtractError(f"house-keeping loop: fourth branch not recognised: {chain[3]}")
+        if not all(present):
+            raise ExtractError("house-keeping loop: the abandoned-connection rule is there without the reservation list")
+        reclaim = True
+    elif len(chain) != 3:
+        raise ExtractError(f"house-keeping loop: {len(chain)} branches")
     return [f"/-- the surplus-idle test compares `{txt}` with the keep-alive limit -/",
             "def poolCountsIdleOnly : Bool := " + ("true" if idle_only else "false"),
+            "/-- the house-keeping loop closes a connection that is neither idle nor held by a request in the queue -/",
+            "def poolReclaimsAbandoned : Bool := " + ("true" if reclaim else "false"),
             "/-- an idle connection handed to a request that has not started on it yet is exempt from the surplus rule and from eviction -/",
             "def poolProtectsAssigned : Bool := " + ("true" if all(present) else "false")]
 
@@ -633,6 +661,28 @@ def extract_h2(repo, parents):
     out.append(f"/-- `_receive_events`, GOAWAY stored: `if {ast.unparse(rule.test)}: raise ConnectionNotAvailable()` else RemoteProtocolError;")
     out.append("`sid = 0` stands for `stream_id is None` (both falsy) -/")
     out.append(f"def goawayRetry (sid last : Nat) : Bool := {expr}")
+    # ---- h2 configuration: is the library's own validation of what we send switched on? ---------------
+    cdef = next((n for n in tree.body if isinstance(n, ast.ClassDef) and n.name == cls), None)
+    confs = [n for n in (cdef.body if cdef else []) if isinstance(n, ast.Assign) and [ast.unparse(t) for t in n.targets] == ["CONFIG"]]
+    if len(confs) != 1 or not (isinstance(confs[0].value, ast.Call) and ast.unparse(confs[0].value.func) == "h2.config.H2Configuration"
+                               and not confs[0].value.args):
+        raise ExtractError("AsyncHTTP2Connection.CONFIG is not one `h2.config.H2Configuration(keyword=...)` call")
+    kws = {}
+    for kw in confs[0].value.keywords:
+        if kw.arg is None or not (isinstance(kw.value, ast.Constant) and isinstance(kw.value.value, bool)):
+            raise ExtractError(f"H2Configuration: keyword not a literal bool: {ast.unparse(kw)}")
+        kws[kw.arg] = kw.value.value
+    unknown = set(kws) - {"validate_inbound_headers", "validate_outbound_headers", "normalize_outbound_headers", "client_side"}
+    if unknown:
+        raise ExtractError(f"H2Configuration: keywords the model does not know: {sorted(unknown)}")
+    if kws.get("client_side", True) is not True:
+        raise ExtractError("H2Configuration(client_side=False)")
+    uses = [ast.unparse(n) for n in ast.walk(tree) if isinstance(n, ast.Call) and ast.unparse(n.func) == "h2.connection.H2Connection"]
+    if uses != ["h2.connection.H2Connection(config=self.CONFIG)"]:
+        raise ExtractError(f"the h2 state machine is not created as H2Connection(config=self.CONFIG): {uses}")
+    out.append("/-- `CONFIG = h2.config.H2Configuration(...)`: h2 validates / normalises the header block it is handed (library default: both on) -/")
+    out.append(f"def h2ValidatesOutbound : Bool := {'true' if kws.get('validate_outbound_headers', True) else 'false'}")
+    out.append(f"def h2NormalizesOutbound : Bool := {'true' if kws.get('normalize_outbound_headers', True) else 'false'}")
     # ---- flow-control wait loop ---------------------------------------------------------------
     fn = _find_func(tree, "_wait_for_outgoing_flow", cls=cls)
     loops = [n for n in fn.body if isinstance(n, ast.While)]
